@@ -24,3 +24,20 @@ Proof. reflexivity. Qed.
 (* an end interface going down or coming up does not touch the load (the functions assign nothing) *)
 Theorem gen_endpoint_down_up : forall b, Link_endpoint_down b = tt /\ Link_endpoint_up b = tt.
 Proof. intros b; split; reflexivity. Qed.
+
+(* ---- transfer: the model's bound, stated about the function translated from the current source ------------------------ *)
+From PV Require Import Proofs.LinkProofs.
+
+(* an admitted frame, whatever transmissions nest inside its delivery (each well-formed): the load the translated
+   transmit_frame leaves behind is within [0, bandwidth] *)
+Theorem source_transmit_frame_keeps_load_within_bandwidth : forall bw chk add up ok kids load carried ea eb sender,
+  wf (Tx chk add up ok kids) -> good bw (load, carried) -> up && (load + chk <=? bw) = true ->
+  let st2 := fold_left (fun s k => run bw k s) kids (load + add, carried) in
+  let load' := fst (snd (Link_transmit_frame ea eb add load ok [] (fst st2) sender)) in
+  0 <= load' <= bw.
+Proof.
+  intros bw chk add up ok kids load carried ea eb sender W G A st2 load'.
+  subst load' st2. rewrite (gen_transmit_frame bw chk add up ok kids load carried ea eb sender A). cbn [fst snd].
+  destruct (run_step bw _ W (load, carried) G) as ((G1 & G2 & G3) & _ & _).
+  destruct (run bw (Tx chk add up ok kids) (load, carried)) as [l c]. cbn [fst snd] in *. lia.
+Qed.
